@@ -1,6 +1,6 @@
 (* Shared helpers for the correspondence checkers (executable, no proofs). *)
 From Coq Require Import List QArith ZArith NArith Bool.
-From QmcV Require Import Model.Prog Model.Sse.
+From QmcV Require Import Model.Prog Model.Sse Model.Nav Model.Cluster Model.ClusterValid.
 Import ListNotations.
 
 Definition oq_eqb (a b : option Q) : bool :=
@@ -33,3 +33,12 @@ Fixpoint bits_of (idx n : nat) : list bool :=
   | O => []
   | S k => Nat.testbit idx k :: bits_of idx k
   end.
+
+(* certified validation of the cluster decomposition (Proofs/ClusterFlipProofs.v): a labelling accepted
+   here makes every flip outcome preserve world-line consistency and (for symmetric weights) the weight *)
+Definition valid_decomp (st : state) (sl : slots) : bool :=
+  if Nat.eqb (count_ops sl) 0 then true
+  else match decompose sl with
+       | Some (b, _) => links_ok sl b && sides_ok sl b && vars_in_range (length st) sl
+       | None => false
+       end.
